@@ -166,11 +166,21 @@ def run_case(case: Dict[str, Any], ctx) -> None:
         # like sqrt(n) ulps
         n_terms = max(1, (A.out_u.numel() if A.out_u is not None else 1) // max(1, A.grads_u[name].numel()))
         red = max(1.0, n_terms ** 0.5 / 2) if dtype in (torch.bfloat16, torch.float16) else 1.0
+
+        def cancel(fr_):
+            """extra relative tolerance of a 16-bit SUMMED gradient whose terms cancel: with per-term rounding the absolute error is
+            about eps * sqrt(n) * |upstream|; relative to a result that is only a fraction rho of that magnitude it is eps / rho"""
+            if dtype not in (torch.bfloat16, torch.float16) or n_terms < 2:
+                return 0.0
+            big_ = n_terms ** 0.5 * max(fr_.upstream_max, 1e-30)
+            rho = min(1.0, float(fr_.grads_r[name].abs().max()) / big_) if fr_.grads_r[name].numel() else 1.0
+            return 4 * _EPS[case["dtype"]] / max(rho, 1e-6)
+        extra = {"A": cancel(A), "B": cancel(B), "C": cancel(C)}
         for b, r, tag in zip(bs, rs, "ABC"):
             if r > tol and lowp:
                 # low precision: is the deviation above what PyTorch's own op suffers on these very inputs?
                 noise = noise_of(tag, name)
-                if r <= 8 * noise + tol * red:
+                if r <= 8 * noise + tol * red + extra[tag]:
                     ctx.count("lowp:within-noise-of-the-reference-op")
                     continue
             if r > tol:
@@ -181,12 +191,12 @@ def run_case(case: Dict[str, Any], ctx) -> None:
             if not (b > 0):
                 ctx.violation(key(f"grad-scalar-not-positive:{name}"), f"b={b!r}", cfg=cfg, constraint=constraint)
                 return
-        if not rel_close(bs[0], bs[1], stol) and lowp and rel_close(bs[0], bs[1], stol * red + 8 * (noise_of("A", name) + noise_of("B", name))):
+        if not rel_close(bs[0], bs[1], stol) and lowp and rel_close(bs[0], bs[1], stol * red + extra["A"] + extra["B"] + 8 * (noise_of("A", name) + noise_of("B", name))):
             ctx.count("lowp:scalar-within-noise-of-the-reference-op")
         elif not rel_close(bs[0], bs[1], stol):
             ctx.violation(key(f"grad-scalar-depends-on-data:{name}"), f"b_A={bs[0]!r} b_B={bs[1]!r}", cfg=cfg,
                           constraint=constraint, dtype=case["dtype"])
-        if not rel_close(bs[0], bs[2], stol) and lowp and rel_close(bs[0], bs[2], stol * red + 8 * (noise_of("A", name) + noise_of("C", name))):
+        if not rel_close(bs[0], bs[2], stol) and lowp and rel_close(bs[0], bs[2], stol * red + extra["A"] + extra["C"] + 8 * (noise_of("A", name) + noise_of("C", name))):
             ctx.count("lowp:scalar-within-noise-of-the-reference-op")
         elif not rel_close(bs[0], bs[2], stol):
             ctx.violation(key(f"grad-scalar-depends-on-upstream:{name}"), f"b_A={bs[0]!r} b_C={bs[2]!r}", cfg=cfg,
